@@ -36,6 +36,13 @@ Proof. intros toa pw dd mn N Hdd HN Hlo Hhi. split; [apply read_ok; assumption|]
   apply centre_is_toa; assumption. Qed.
 Print Assumptions C08_pulse_block.
 
+(** tstart of the returned block refers to the sample in its first column: read_block(start = nstart_file) advances tstart by nstart_file
+    samples and, when the block is padded, pad_samples(offset) moves it back by the leading pad (C08_block_pad_samples in Props/C08.v) *)
+Theorem C08_pulse_header_sample : forall toa pw dd mn N,
+  (if px_pad_cond (nst toa pw dd mn) (ns pw dd mn) N then nstf toa pw dd mn - px_offset (nst toa pw dd mn) else nstf toa pw dd mn) = nst toa pw dd mn.
+Proof. exact header_sample. Qed.
+Print Assumptions C08_pulse_header_sample.
+
 (** non-vacuity: a pulse 3 samples into a 40-sample file, width 4, sweep 9: block of 20 samples starting at -7, padded in front *)
 Example C08_pulse_example :
   px_geom 3 4 9 2 40 = (2, 10, 20, -7, 0, 13, 10) /\
